@@ -395,11 +395,38 @@ Proof.
   exists t. split; [reflexivity|]. split; [reflexivity|exact H].
 Qed.
 
-Lemma meta_call_inv : forall md enc fmt s s',
+(* write_meta after the fix `if not (encoding or self._cur_encoding): content = content.encode('ascii')`:
+   [meta_enc_b s c]: at the write_meta call c made in state s an encoding IS in force (the argument, or else the
+   innermost open container's, is truthy).  Then the call behaves exactly as before the fix (the JSON text is
+   encoded like any text content).  With NO encoding in force — only possible in a writer constructed with
+   encoding=None, [enc_ok] allows that — the call used to raise TypeError and is now accepted, the JSON being handed
+   on as bytes; the reader then yields bytes and asks json.loads about bytes.  That path is outside the statements
+   of C01 (whole sequences), C02_spec, C05_full and C06_full: they carry [meta_enc_b] / [metas_encoded] as a
+   hypothesis.  [metas_encoded_init]: it holds for every program of a writer constructed with an encoding. *)
+Definition meta_enc_b (s : wstate) (c : call) : bool :=
+  match c with
+  | WriteMeta _ enc _ => wv_truthy (Encodings.w_content_encoding enc true (hd WNone (w_stack s)))
+  | _ => true
+  end.
+
+Fixpoint metas_encoded (s : wstate) (cs : list call) : Prop :=
+  match cs with
+  | [] => True
+  | c :: t => meta_enc_b s c = true /\ metas_encoded (fst (do_call c s)) t
+  end.
+
+Lemma meta_enc_has_enc : forall s md enc fmt, w_stack s <> [] -> meta_enc_b s (WriteMeta md enc fmt) = true ->
+  (if wv_truthy enc then Ok true else do ce <- cur_encoding s; Ok (wv_truthy ce)) = Ok true.
+Proof. intros s md enc fmt Hne H. apply WriterFacts.meta_has_enc; [exact Hne|exact H]. Qed.
+
+(* inversion of an accepted write_meta, whatever the encodings: [has_enc] is the writer's test *)
+Lemma meta_call_inv_gen : forall md enc fmt s s',
   do_call (WriteMeta md enc fmt) s = (s', Ok tt) ->
-  exists j d, md = WDict j /\ wv_truthy md = true /\
+  exists j d has_enc, md = WDict j /\ wv_truthy md = true /\
     in_strset (meta_fmt fmt) GenText.meta_formats = Ok true /\ json_dump j = Ok d /\
-    new_content_section (B "meta") (CText (ascii_text d)) WNone enc WNone false true [(B "format", meta_fmt fmt)] s = (s', Ok tt).
+    (if wv_truthy enc then Ok true else do ce <- cur_encoding s; Ok (wv_truthy ce)) = Ok has_enc /\
+    new_content_section (B "meta") (if has_enc then CText (ascii_text d) else CBytes d)
+      WNone enc WNone false true [(B "format", meta_fmt fmt)] s = (s', Ok tt).
 Proof.
   intros md enc fmt s s' H. cbn [do_call] in H.
   destruct md; try (exfalso; eapply lift_err_no; eassumption).
@@ -409,6 +436,22 @@ Proof.
   destruct fok; cbn [negb] in H; [|exfalso; eapply lift_err_no; eassumption].
   rewrite WriterFacts.bind_lift in H.
   destruct (json_dump j) as [d|e1] eqn:Ed; [|inversion H].
+  rewrite WriterFacts.bind_get, WriterFacts.bind_lift in H.
+  destruct (if wv_truthy enc then _ else _) as [has_enc|e1] eqn:Eh; [|inversion H].
+  exists j, d, has_enc. repeat split; auto.
+Qed.
+
+(* ... with an encoding in force: the JSON text goes through the text path *)
+Lemma meta_call_inv : forall md enc fmt s s',
+  w_stack s <> [] -> meta_enc_b s (WriteMeta md enc fmt) = true ->
+  do_call (WriteMeta md enc fmt) s = (s', Ok tt) ->
+  exists j d, md = WDict j /\ wv_truthy md = true /\
+    in_strset (meta_fmt fmt) GenText.meta_formats = Ok true /\ json_dump j = Ok d /\
+    new_content_section (B "meta") (CText (ascii_text d)) WNone enc WNone false true [(B "format", meta_fmt fmt)] s = (s', Ok tt).
+Proof.
+  intros md enc fmt s s' Hne Hme H.
+  destruct (meta_call_inv_gen _ _ _ _ _ H) as (j & d & he & Ej & Ht & Hf & Hd & Hhe & Hn).
+  rewrite (meta_enc_has_enc s md enc fmt Hne Hme) in Hhe. injection Hhe as <-.
   exists j, d. repeat split; auto.
 Qed.
 
